@@ -7,6 +7,7 @@ import (
 	"sort"
 	"strconv"
 	"strings"
+	"sync"
 	"testing"
 	"time"
 )
@@ -221,6 +222,8 @@ func search(t *testing.T, h *Harness) {
 	if p := os.Getenv("VERIF_OUT"); p != "" {
 		progress, _ = os.Create(p + ".progress")
 	}
+	guard := startStallGuard(stallAbort)
+	defer guard.Stop()
 	for i := uint64(0); i < maxRuns; i++ {
 		if time.Since(start) > budget {
 			break
@@ -234,6 +237,7 @@ func search(t *testing.T, h *Harness) {
 			progress.WriteAt(buf[:], 0)
 		}
 		dec := NewSearch(seed, run)
+		guard.Beat()
 		res := RunOnce(t, h.Cfg, dec, h.Body)
 		out.Runs++
 		out.Steps += res.Steps
@@ -358,13 +362,53 @@ func loadReplay() *Replay {
 }
 
 // replay re-executes a replay file; writes {"signature":..., "log":...}.
+// stallLimit: single runs take milliseconds. A run that keeps the processor that long without reaching a scheduling
+// point (an endless loop in the code under test that touches nothing the simulator owns) cannot be ended from inside
+// its bubble; the guard, an ordinary goroutine outside of it, ends the process instead and says why.
+const stallLimit = 30 * time.Second
+
+type stallGuard struct {
+	mu      sync.Mutex
+	beat    time.Time
+	stopped bool
+}
+
+func startStallGuard(onStall func()) *stallGuard {
+	g := &stallGuard{beat: time.Now()}
+	go func() {
+		for {
+			time.Sleep(time.Second)
+			g.mu.Lock()
+			stalled, stopped := time.Since(g.beat) > stallLimit, g.stopped
+			g.mu.Unlock()
+			if stopped {
+				return
+			}
+			if stalled {
+				onStall()
+				os.Exit(2)
+			}
+		}
+	}()
+	return g
+}
+
+func (g *stallGuard) Beat() { g.mu.Lock(); g.beat = time.Now(); g.mu.Unlock() }
+func (g *stallGuard) Stop() { g.mu.Lock(); g.stopped = true; g.mu.Unlock() }
+
+func stallAbort() {
+	fmt.Fprintf(os.Stderr, "fatal error: stall: one run kept the processor for %v without reaching a scheduling point (endless loop in the code under test)\n", stallLimit)
+}
+
 func replay(t *testing.T, h *Harness) {
 	rp := loadReplay()
 	dec := NewReplay(rp.Decisions)
 	if rp.FromSeed {
 		dec = NewSearch(rp.Seed, rp.Run)
 	}
+	g := startStallGuard(stallAbort)
 	res := RunOnce(t, withLog(h.Cfg), dec, h.Body)
+	g.Stop()
 	sig, detail := "", ""
 	if res.Failure != nil {
 		sig, detail = res.Failure.Signature(), res.Failure.Detail
@@ -381,8 +425,24 @@ func shrink(t *testing.T, h *Harness) {
 	maxCand := int(envU("VERIF_MAXCAND", 4000))
 	start := time.Now()
 	cands := 0
+	// a candidate schedule on which the code under test never comes back ends the minimisation with the best list so far
+	var bestMu sync.Mutex
+	var bestSoFar []int
+	guard := startStallGuard(func() {
+		bestMu.Lock()
+		defer bestMu.Unlock()
+		out := *rp
+		out.OrigLen = len(rp.Decisions)
+		out.Decisions = bestSoFar
+		out.Minimised = true
+		out.Trace = []string{"(trace omitted: the minimisation was ended by a candidate schedule on which the code under test kept the processor without reaching a scheduling point; 'verif replay' of this file prints the trace)"}
+		writeJSON(os.Getenv("VERIF_OUT"), &out)
+		os.Exit(0)
+	})
+	defer guard.Stop()
 	test := func(list []int) (bool, []int) {
 		cands++
+		guard.Beat()
 		res := RunOnce(t, h.Cfg, NewReplay(list), h.Body)
 		if res.Failure != nil && res.Failure.Signature() == rp.Signature {
 			rec := res.Decisions
@@ -399,6 +459,12 @@ func shrink(t *testing.T, h *Harness) {
 		writeJSON(os.Getenv("VERIF_OUT"), map[string]any{"error": "replay file does not reproduce its signature"})
 		return
 	}
+	keep := func(l []int) {
+		bestMu.Lock()
+		bestSoFar = append([]int(nil), l...)
+		bestMu.Unlock()
+	}
+	keep(best)
 	over := func() bool { return time.Since(start) > budget || cands > maxCand }
 	improved := true
 	for improved && !over() {
@@ -409,6 +475,7 @@ func shrink(t *testing.T, h *Harness) {
 				cand := append(append([]int(nil), best[:i]...), best[i+size:]...)
 				if ok, rec := test(cand); ok && weight(rec) < weight(best) {
 					best = rec
+					keep(best)
 					improved = true
 				} else {
 					i += size
@@ -433,6 +500,7 @@ func shrink(t *testing.T, h *Harness) {
 				}
 				if ok, rec := test(cand); ok && weight(rec) < weight(best) {
 					best = rec
+					keep(best)
 					improved = true
 				}
 			}
@@ -444,6 +512,7 @@ func shrink(t *testing.T, h *Harness) {
 				cand[i] = best[i] / 2
 				if ok, rec := test(cand); ok && weight(rec) < weight(best) {
 					best = rec
+					keep(best)
 					improved = true
 				} else {
 					break
@@ -454,6 +523,7 @@ func shrink(t *testing.T, h *Harness) {
 			}
 		}
 	}
+	guard.Beat()
 	res := RunOnce(t, withLog(h.Cfg), NewReplay(best), h.Body)
 	out := *rp
 	out.OrigLen = len(rp.Decisions)
